@@ -74,3 +74,7 @@ NM2_STATEFUL = {
 
 # OPT1: options that by design do not cascade from the covergroup
 OPT1_NO_CASCADE = {"comment": "documented in the source: 'Comment doesn't cascade'"}
+
+# CLONE: constructor-defined fields that clone() deliberately leaves at their default ("Class.attr" -> reason)
+CLONE_NOT_COPIED = {
+}
